@@ -15,16 +15,24 @@
 (*                         really passed: the jitter of every slice adds up, so *)
 (*                         the slack grows with the timeout instead of staying  *)
 (*                         bounded (code before eb6864f: 1 s took 1.29 s)       *)
+(*  "sleep_no_recheck"     a coroutine's sleep parks once until its deadline    *)
+(*                         and returns whenever it is resumed, without reading  *)
+(*                         the clock again: an early resumption - a stale entry *)
+(*                         of the scheduler's syscall timer left by an earlier  *)
+(*                         socket wait of the same coroutine, or a readiness    *)
+(*                         event of a socket it no longer waits on - ends the   *)
+(*                         sleep early (a seeded change, seeded/C14)            *)
 EXTENDS Naturals, Integers, Sequences, TLC
 
 CONSTANTS MaxT, Slice, Deviations
+MaxSpurious == 2
 Calls == {"sleep", "poll", "select", "cond"}
 
-VARIABLES call, T, valid, now, left, x, pc, ret, probes, dead
-vars == <<call, T, valid, now, left, x, pc, ret, probes, dead>>
+VARIABLES call, T, valid, now, left, x, pc, ret, probes, dead, sp
+vars == <<call, T, valid, now, left, x, pc, ret, probes, dead, sp>>
 
 Init == /\ call \in Calls /\ T \in 0..MaxT /\ valid \in BOOLEAN
-        /\ now = 0 /\ left = 0 /\ x = 1 /\ pc = "start" /\ ret = "none" /\ probes = 0 /\ dead = FALSE
+        /\ now = 0 /\ left = 0 /\ x = 1 /\ pc = "start" /\ ret = "none" /\ probes = 0 /\ dead = FALSE /\ sp = 0
 
 UsAsMs == "select_us_as_ms" \in Deviations
 Min(a, b) == IF a <= b THEN a ELSE b
@@ -38,12 +46,12 @@ Start ==
      ELSE /\ left' = IF call = "select" /\ UsAsMs THEN T * 4 ELSE T      \* 4 "microsecond units" per ms
           /\ pc' = IF call \in {"poll", "select"} THEN "probe" ELSE "wait"
           /\ UNCHANGED <<ret, dead>>
-  /\ UNCHANGED <<call, T, valid, now, x, probes>>
+  /\ UNCHANGED <<call, T, valid, now, x, probes, sp>>
 
 \* poll / select ask the kernel with a zero timeout: nothing is ready
 Probe == /\ pc = "probe" /\ probes' = probes + 1
          /\ IF left = 0 THEN pc' = "done" /\ ret' = "timeout" ELSE pc' = "wait" /\ UNCHANGED ret
-         /\ UNCHANGED <<call, T, valid, now, left, x, dead>>
+         /\ UNCHANGED <<call, T, valid, now, left, x, dead, sp>>
 
 \* one wait: the whole rest for the sleeps (internally sliced), min(left, x) for poll / select,
 \* min(left, Slice) for cond_timedwait; jitter j
@@ -60,9 +68,20 @@ Wait(j) ==
         /\ x' = IF call \in {"poll", "select"} /\ x < 16 THEN x * 2 ELSE x
         /\ IF call \in {"poll", "select"} THEN pc' = "probe" /\ UNCHANGED ret
            ELSE IF left <= d + j THEN pc' = "done" /\ ret' = "timeout" ELSE pc' = "wait" /\ UNCHANGED ret
-  /\ UNCHANGED <<call, T, valid, probes, dead>>
+  /\ UNCHANGED <<call, T, valid, probes, dead, sp>>
 
-Next == Start \/ Probe \/ \E j \in 0..1 : Wait(j)
+\* the parked coroutine is resumed e ms into a wait that should last longer (stale syscall-timer entry of
+\* an earlier socket wait, readiness event of a descriptor it no longer waits on): the wait loop reads the
+\* clock and parks again for what is left
+EarlyWake(e) ==
+  /\ pc = "wait" /\ call \in {"sleep", "cond"} /\ sp < MaxSpurious /\ e < left
+  /\ sp' = sp + 1 /\ now' = now + e /\ left' = left - e
+  /\ IF call = "sleep" /\ "sleep_no_recheck" \in Deviations
+     THEN pc' = "done" /\ ret' = "timeout"
+     ELSE UNCHANGED <<pc, ret>>
+  /\ UNCHANGED <<call, T, valid, x, probes, dead>>
+
+Next == Start \/ Probe \/ (\E j \in 0..1 : Wait(j)) \/ (\E e \in 0..MaxT : EarlyWake(e))
 Spec == Init /\ [][Next]_vars /\ WF_vars(Next)
 
 \* C14
